@@ -217,7 +217,9 @@ func (r *router) addRoute(method, routePath string, handler route.Handler) *Rout
 			panic(fmt.Sprintf("unable to add route %q with method %s: %v", routePath, m, err))
 		}
 
-		if leaf.Static() {
+		// A route with an optional segment matches more than one path and none of them
+		// is its own text, so it cannot be served from the fast paths.
+		if leaf.Static() && !strings.Contains(leaf.Route(), "?") {
 			r.staticRoutes[m][leaf.Route()] = leaf
 		}
 		leaves[m] = leaf
